@@ -46,7 +46,7 @@ func (c03) Runs(tier string) int {
 	if tier == "thorough" {
 		return 60000
 	}
-	return 1500
+	return 3000
 }
 func (c03) RequiredProbes(string) []string {
 	return []string{"unauthorised_request_denied", "authorised_request_succeeded"}
